@@ -142,8 +142,11 @@ func (c15) Gen(rt *rapid.T, thorough bool) any {
 				pa.How, pa.Val = "set", rapid.SampledFrom(a.good).Draw(rt, "good")
 			case r < 14:
 				pa.How = "omit"
-			case r < 17:
+			case r < 16:
 				pa.How, pa.Val = "prop", rapid.SampledFrom(a.good).Draw(rt, "good_prop")
+			case r < 17:
+				// the property's value is itself of the form ${...}: one substitution only
+				pa.How, pa.Val = "chain", rapid.SampledFrom(a.good).Draw(rt, "good_chain")
 			case r < 18:
 				pa.How = "missing-prop"
 			default:
@@ -158,6 +161,8 @@ func (c15) Gen(rt *rapid.T, thorough bool) any {
 		// layout element
 		s.Attrs = append(s.Attrs, PAttr{Name: "layout", How: rapid.SampledFrom([]string{"omit", "set", "set", "bad", "untyped"}).Draw(rt, "layout_how"),
 			Val: rapid.SampledFrom([]string{"TextLayout", "JSONLayout"}).Draw(rt, "layout_type")})
+		s.Attrs = append(s.Attrs, PAttr{Name: "loggerLayout", How: rapid.SampledFrom([]string{"none", "none", "omit", "set", "bad", "empty"}).Draw(rt, "ll_how"),
+			Val: rapid.SampledFrom([]string{"TextLayout", "JSONLayout"}).Draw(rt, "ll_type")})
 		s.Attrs = append(s.Attrs, PAttr{Name: "width", How: rapid.SampledFrom([]string{"omit", "set"}).Draw(rt, "width_how"), Val: rapid.SampledFrom([]string{"5", "48", "120"}).Draw(rt, "width")})
 	case "mutate":
 		n := rapid.IntRange(1, 4).Draw(rt, "nmut")
@@ -264,6 +269,24 @@ func (c c15) runProbe(x *Exec, s *C15Scn) {
 	nontrivial := false
 	for _, a := range s.Attrs {
 		switch a.Name {
+		case "loggerLayout":
+			// a logger whose optional Layout element is absent / valid / of an unknown type
+			if a.How == "none" {
+				continue
+			}
+			cfg["logger.root.type"] = "Logger"
+			cfg["logger.root."+caseKey("appenderRef", s.Style.KeyCase)+".ref"] = "pb"
+			switch a.How {
+			case "set":
+				cfg["logger.root.layout.type"] = a.Val
+			case "bad":
+				cfg["logger.root.layout.type"] = "NoSuchLayout"
+				wantErr = "unknown type of the logger's optional layout element"
+			case "empty":
+				cfg["logger.root.layout.type"] = ""
+				wantErr = "unknown (empty) type of the logger's optional layout element"
+			}
+			continue
 		case "layout":
 			switch a.How {
 			case "set":
@@ -314,6 +337,18 @@ func (c c15) runProbe(x *Exec, s *C15Scn) {
 			prop := "prop_" + a.Name
 			cfg[caseKey(prop, s.Style.KeyCase)] = val
 			put(a.Name, "${"+prop+"}")
+		case "chain":
+			nontrivial = true
+			p1, p2 := "chain_"+a.Name, "target_"+a.Name
+			cfg[caseKey(p1, s.Style.KeyCase)] = "${" + caseKey(p2, s.Style.KeyCase) + "}"
+			cfg[caseKey(p2, s.Style.KeyCase)] = val
+			put(a.Name, "${"+p1+"}")
+			// ${key} is replaced by the property's value, which here is the text "${target...}"
+			val = "${" + caseKey(p2, s.Style.KeyCase) + "}"
+			if ak.kind != "str" {
+				wantErr = fmt.Sprintf("ill-typed %s: the substituted value %q does not convert to %s", a.Name, val, ak.kind)
+				continue
+			}
 		case "missing-prop":
 			nontrivial = true
 			put(a.Name, "${absent_"+a.Name+"}")
